@@ -109,6 +109,7 @@ def run(chk):
     chk.section("augassign-index", lambda: augassign_index(chk))
     chk.section("iteration", lambda: iteration(chk))
     chk.section("unwrap-helpers", lambda: unwrap_helpers(chk))
+    chk.section("tuple-unpacking", lambda: tuple_unpacking(chk))
     chk.section("array-comprehension", lambda: array_comprehension(chk))
     for i in range(NCH_B):
         chk.section(f"bounded-{i}", lambda i=i: bounded(chk, i))
@@ -966,3 +967,92 @@ def array_comprehension(chk):
     chk.prove_paths("visit_DesugaredArrayComp:empty-array-and-counter-0-before-the-loop/\\element-stored-at-the-counter/\\counter+1/\\array-and-counter-are-the-loop-variables/\\result-is-the-array-after-the-loop", paths, post,
                     func=f"{EC}:ExprCompiler.visit_DesugaredArrayComp", replay=lambda m_: {"script": REPLAY_ITER, "input": {}})
     chk.use_engine(e)
+
+
+def tuple_unpacking(chk, tag=""):
+    """StmtCompiler._assign_tuple (compiler/stmt_compiler.py): `l0, .., *s, r0, .. = <tuple>` binds the left
+    patterns to the first components, the right patterns to the LAST components in their written order
+    (r_k to component n - R + k), and the starred pattern to an array of the components in between, in
+    order.  Real code against a recording builder, all pattern shapes with up to 3 patterns per side and
+    a starred middle of 0..2 (or none).  Shared with C03 (unpacking assignments follow Python)."""
+    e = mk_engine(chk)
+    e.func_info(SC, "StmtCompiler._assign_tuple")
+    m = e.module(SC)
+    e.models["guppylang_internals.ast_util:get_type"] = lambda it, a, k: SObj(ClassVal("Ty", builtin=True), {"row": a[0].fields.get("row"), "elem": "ELT"})
+    e.models["guppylang_internals.tys.ty:type_to_row"] = lambda it, a, k: [SObj(ClassVal("Ty", builtin=True), {"to_hugr": Builtin("to_hugr", lambda c, i=i: f"T{i}")}) for i in range(a[0].fields["row"])]
+    e.models["guppylang_internals.tys.builtin:get_element_type"] = lambda it, a, k: SObj(ClassVal("Ty", builtin=True), {"to_hugr": Builtin("to_hugr", lambda c: "ELT-H")})
+    e.models[f"{AR}:array_new"] = lambda it, a, k: ("array_new", a[0], a[1])
+    e.ext_models["hugr.ops.UnpackTuple"] = lambda it, a, k: ("UnpackTuple", tuple(a[0]) if a else ())
+    count = 0
+    for L, R in itertools.product(range(4), repeat=2):
+        for star in (None, 0, 1, 2):
+            n = L + R + (star or 0)
+            if n == 0:
+                continue
+
+            def t(it, L=L, R=R, star=star, n=n):
+                StC = it.lookup_global(m, "StmtCompiler")
+                assigned = []
+
+                def add_op(op, *wires):
+                    if op[0] == "UnpackTuple":
+                        return [f"c{k}" for k in range(n)]
+                    if op[0] == "array_new":
+                        return ("ARRAY", op[2], list(wires))
+                    raise Unsupported(str(op))
+                builder = SObj(ClassVal("RecBuilder", builtin=True), {"add_op": Builtin("add_op", add_op)})
+                pats_l = [("L", k) for k in range(L)]
+                pats_r = [("R", k) for k in range(R)]
+                starred = SObj(ClassVal("Starred", builtin=True), {"row": None}) if star is not None else None
+                pattern = SObj(ClassVal("UnpackPattern", builtin=True), {"left": pats_l, "right": pats_r, "starred": starred})
+                lhs = SObj(ClassVal("TupleUnpack", builtin=True), {"pattern": pattern, "row": n})
+                self_ = SObj(StC, {"ctx": None, "dfg": SObj(ClassVal("DFC", builtin=True), {"builder": builder}),
+                                   "_assign": Builtin("_assign", lambda pat, val: assigned.append((pat, val)))})
+                it.call_method(self_, "_assign_tuple", [lhs, "PORT"])
+                return assigned, starred
+            paths = e.explore(t)
+
+            def post(p, L=L, R=R, star=star, n=n):
+                if p.kind != "return":
+                    return z3.BoolVal(False)
+                assigned, starred = p.value
+                want = {("L", k): f"c{k}" for k in range(L)}
+                want.update({("R", k): f"c{n - R + k}" for k in range(R)})
+                got = {a: b for a, b in assigned if isinstance(a, tuple)}
+                ok = got == want and len([1 for a, _ in assigned if isinstance(a, tuple)]) == L + R
+                st = [b for a, b in assigned if a is starred and starred is not None]
+                if star is not None:
+                    ok = ok and len(st) == 1 and st[0][0] == "ARRAY" and st[0][1] == n - L - R and st[0][2] == [f"c{k}" for k in range(L, n - R)]
+                else:
+                    ok = ok and not st
+                return z3.BoolVal(bool(ok))
+            nm = f"{L} left, {R} right, " + ("no starred" if star is None else f"starred middle of {star}")
+            chk.prove_paths(f"{tag}StmtCompiler._assign_tuple[{nm}]:left-patterns<-first-components/\\right-patterns<-last-components-in-written-order/\\starred<-the-middle-in-order", paths, post,
+                            func=f"{SC}:StmtCompiler._assign_tuple", replay=lambda m_: {"script": REPLAY_TUPLE_UNPACK, "input": {}})
+            count += 1
+    chk.record(f"{tag}StmtCompiler._assign_tuple:all-pattern-shapes-explored", count >= 60, str(count), kind="reachability")
+    chk.use_engine(e)
+
+
+REPLAY_TUPLE_UNPACK = r'''
+import guppy_plainbool
+import tempfile, importlib.util, os, sys, shutil
+src = """from guppylang import guppy
+from guppylang.std.builtins import result
+@guppy
+def main() -> None:
+    w, *x, y, z = 40, 41, 42, 43, 44
+    result("w", w); result("x0", x[0]); result("x1", x[1]); result("y", y); result("z", z)
+"""
+d = tempfile.mkdtemp(dir=os.environ.get("TMPDIR", "/var/tmp")); fn = os.path.join(d, "replay_c19t.py"); open(fn, "w").write(src)
+spec = importlib.util.spec_from_file_location("replay_c19t", fn); m = importlib.util.module_from_spec(spec); sys.modules["replay_c19t"] = m
+try:
+    spec.loader.exec_module(m)
+    got = [list(x) for x in list(m.main.emulator(n_qubits=1).run().results)[0].entries]
+    want = [["w", 40], ["x0", 41], ["x1", 42], ["y", 43], ["z", 44]]
+    out = {"violates": got != want, "observed": got, "required": want}
+except Exception as ex:
+    out = {"violates": False, "error": repr(ex)[:300]}
+shutil.rmtree(d, ignore_errors=True)
+print(json.dumps(out))
+'''
